@@ -315,7 +315,17 @@ pub fn run_c07(ctx: &mut Ctx, from: u64, to: u64) {
             o.max_text_len = 80;
         }
         o.tags = TagMode::Maybe;
-        let case = gen_case(&mut rng, &o);
+        let mut case = gen_case(&mut rng, &o);
+        if !case.model.dict_model.is_empty() && rng.chance(1, 8) {
+            // the same word in two adjacent dictionary rows (both rows count; replace_dictionary allows it)
+            let i = rng.below(case.model.dict_model.len());
+            let mut dup = case.model.dict_model[i].clone();
+            if rng.chance(1, 2) {
+                dup.weights.iter_mut().for_each(|w| *w = w.wrapping_neg().clamp(-32767, 32767));
+            }
+            case.model.dict_model.insert(i + 1, dup);
+            ctx.count("models_with_repeated_dictionary_word", 1);
+        }
         let bytes = case.model.to_bytes();
         ctx.flag("models_with_tag_models", !case.model.tag_models.is_empty());
         ctx.flag("models_fully_enumerated", full);
